@@ -2878,13 +2878,30 @@ class WBEMConnection:  # pylint: disable=too-many-instance-attributes
                                                  namespace)
         return (rtn_objects, end_of_sequence, rtn_ctxt)
 
+    def _get_child_objects(self, items):
+        """
+        Return the objects of the IRETURNVALUE items of an operation that
+        returns its objects within wrapper elements (VALUE.OBJECT...,
+        OBJECTPATH), which are represented as tuple(name, attrs, object).
+        """
+        objects = []
+        for item in items:
+            if not isinstance(item, tuple) or len(item) != 3:
+                raise CIMXMLParseError(
+                    _format("Expecting VALUE.OBJECT..., or OBJECTPATH elements "
+                            "in result list, got {0} object",
+                            item.__class__.__name__),
+                    conn_id=self.conn_id)
+            objects.append(item[2])
+        return objects
+
     def _get_returned_objects(self, result, ObjectName):
         """
         Support for Associators, References operations
         Get returned objects and validate that the types correspond to the types
         for Associators and References
         """
-        objects = [] if result is None else [x[2] for x in result[0][2]]
+        objects = [] if result is None else self._get_child_objects(result[0][2])
 
         if isinstance(ObjectName, CIMInstanceName):
             # instance-level invocation
@@ -2923,7 +2940,7 @@ class WBEMConnection:  # pylint: disable=too-many-instance-attributes
         CIMInstanceName if the request was CIMInstanceName or
         CIMClassName if the request was CIMClassName
         """
-        objects = [] if result is None else [x[2] for x in result[0][2]]
+        objects = [] if result is None else self._get_child_objects(result[0][2])
 
         if isinstance(ObjectName, CIMInstanceName):
             # instance-level invocation
@@ -3130,6 +3147,11 @@ class WBEMConnection:  # pylint: disable=too-many-instance-attributes
                 # paths as INSTANCENAME elements which do not contain namespace
                 # or host. We want to return instance paths with namespace, so
                 # we set it to the effective target namespace.
+                if instance.path is None:
+                    raise CIMXMLParseError(
+                        "Expecting CIMInstance object with path in result "
+                        "list, got CIMInstance object without path",
+                        conn_id=self.conn_id)
                 instance.path.namespace = namespace
 
             return instances
@@ -4714,7 +4736,7 @@ class WBEMConnection:  # pylint: disable=too-many-instance-attributes
             if result is None:
                 instances = []
             else:
-                instances = [x[2] for x in result[0][2]]
+                instances = self._get_child_objects(result[0][2])
 
             for instance in instances:
 
